@@ -106,7 +106,7 @@ def _ensemble_case(rng, tier):
         case["maxiter"] = rng.choice([None, 3, 6, 8])
     if rng.random() < 0.08 and case["lo"] and solver != "buckshot":
         case["dist"] = True                # SetDistribution: perturbed start points (may leave the box; members clip them back)
-    if rng.random() < 0.04 and case["lo"] and not case.get("dist"):
+    if rng.random() < 0.07 and case["lo"] and not case.get("dist"):
         case["nested_instance"] = True     # a configured solver INSTANCE as nested solver (ensemble settings are not applied)
     if rng.random() < 0.25 and case["lo"] and not case.get("dist") and not case.get("nested_instance"):
         case["rmode"] = rng.choice([[True, None], [None, True], [True, True]])
